@@ -28,6 +28,7 @@ type opPath struct {
 }
 
 const c19Name = "CRC16"
+const c19Name2 = "CRC32" // second key of the two-key tuples
 
 func (c *Ctx) opPaths(op regOp) []opPath {
 	e := c.e()
@@ -81,6 +82,11 @@ func c19schedItems(c *Ctx) []Item {
 		{reg, reg}, {reg, get}, {reg, rem}, {reg, clr}, {get, rem}, {get, clr}, {rem, rem}, {rem, clr}, {get, get}, {clr, clr},
 		{reg, reg, get}, {reg, reg, rem}, {reg, rem, get}, {reg, clr, get},
 	}
+	// operations on two different names: one operation must not disturb the other's key
+	reg2 := regOp{"Registry", c19Name2, "service"}
+	get2 := regOp{"Get", c19Name2, ""}
+	rem2 := regOp{"Remove", c19Name2, ""}
+	tuples2 := [][]regOp{{rem, reg2}, {reg, reg2}, {rem, get2}, {reg, rem2}, {rem, reg2, get2}, {reg, rem, reg2}}
 	var items []Item
 	for _, tp := range tuples {
 		tp := tp
@@ -89,6 +95,18 @@ func c19schedItems(c *Ctx) []Item {
 			names = append(names, o.Op)
 		}
 		items = append(items, Item{ID: "sched:" + strings.Join(names, "||"), Run: func(c *Ctx) { c19sched(c, tp) }})
+	}
+	for _, tp := range tuples2 {
+		tp := tp
+		var names []string
+		for _, o := range tp {
+			nm := o.Op
+			if o.Name == c19Name2 {
+				nm += "'"
+			}
+			names = append(names, nm)
+		}
+		items = append(items, Item{ID: "sched2:" + strings.Join(names, "||"), Run: func(c *Ctx) { c19sched(c, tp) }})
 	}
 	return items
 }
@@ -219,29 +237,66 @@ func c19combo(c *Ctx, e *Engine, ops []regOp, paths [][]opPath, idx []int) {
 			cons = append(cons, Or(Lt(a.rel, b.acq, false), Lt(b.rel, a.acq, false)))
 		}
 	}
-	// content: 0 absent, 1 initial service, 2+t the service registered by thread t
+	// content per tracked key: 0 absent, 1 initial service, 2+t the service registered by thread t
 	const CW = 4
-	init := e.freshVar("init_present", 0)
-	initC := Ite(init, C(CW, 1), C(CW, 0))
+	var keys []string
+	for _, o := range ops {
+		if o.Name != "" && o.Name != "?" {
+			dup := false
+			for _, k := range keys {
+				dup = dup || k == o.Name
+			}
+			if !dup {
+				keys = append(keys, o.Name)
+			}
+		}
+	}
+	if len(keys) == 0 {
+		keys = []string{c19Name}
+	}
+	keyIdx := func(k string) int {
+		for i, x := range keys {
+			if x == k {
+				return i
+			}
+		}
+		return -1
+	}
+	inits := make([]*Term, len(keys))
+	initC := make([]*Term, len(keys))
+	for i, k := range keys {
+		inits[i] = e.freshVar("init_present_"+k, 0)
+		initC[i] = Ite(inits[i], C(CW, 1), C(CW, 0))
+	}
 	type write struct {
 		ts  *Term
 		val *Term
+		key int // -1: every key (map replaced)
 	}
 	var writes []write
 	for _, se := range evs {
 		switch se.ev.Kind {
 		case "update":
-			writes = append(writes, write{se.ts, C(CW, uint64(2+se.thread))})
-		case "delete", "replace":
-			writes = append(writes, write{se.ts, C(CW, 0)})
+			if ki := keyIdx(se.ev.Key); ki >= 0 {
+				writes = append(writes, write{se.ts, C(CW, uint64(2+se.thread)), ki})
+			}
+		case "delete":
+			if ki := keyIdx(se.ev.Key); ki >= 0 {
+				writes = append(writes, write{se.ts, C(CW, 0), ki})
+			}
+		case "replace":
+			writes = append(writes, write{se.ts, C(CW, 0), -1})
 		}
 	}
-	seenAt := func(ts *Term) *Term {
-		v := initC
+	seenAt := func(ts *Term, ki int) *Term {
+		v := initC[ki]
 		for i, w := range writes {
+			if w.key != -1 && w.key != ki {
+				continue
+			}
 			latest := Lt(w.ts, ts, false)
 			for j, w2 := range writes {
-				if i != j {
+				if i != j && (w2.key == -1 || w2.key == ki) {
 					latest = And(latest, Not(And(Lt(w.ts, w2.ts, false), Lt(w2.ts, ts, false))))
 				}
 			}
@@ -251,20 +306,35 @@ func c19combo(c *Ctx, e *Engine, ops []regOp, paths [][]opPath, idx []int) {
 	}
 	getSeen := make([]*Term, n)
 	for _, se := range evs {
-		if se.ev.Kind != "lookup" {
-			continue
-		}
-		sv := seenAt(se.ts)
-		if se.ev.Res {
-			cons = append(cons, Not(Eq(sv, C(CW, 0))))
-		} else {
-			cons = append(cons, Eq(sv, C(CW, 0)))
-		}
-		if ops[se.thread].Op == "Get" {
-			getSeen[se.thread] = sv
+		switch se.ev.Kind {
+		case "lookup":
+			ki := keyIdx(se.ev.Key)
+			if ki < 0 {
+				continue
+			}
+			sv := seenAt(se.ts, ki)
+			if se.ev.Res {
+				cons = append(cons, Not(Eq(sv, C(CW, 0))))
+			} else {
+				cons = append(cons, Eq(sv, C(CW, 0)))
+			}
+			if ops[se.thread].Op == "Get" {
+				getSeen[se.thread] = sv
+			}
+		case "lenzero":
+			// "the map is empty" is only possible when every tracked key is absent (untracked keys are the
+			// environment: their absence is assumed possible); "not empty" is always possible
+			if se.ev.Res {
+				for ki := range keys {
+					cons = append(cons, Eq(seenAt(se.ts, ki), C(CW, 0)))
+				}
+			}
 		}
 	}
-	final := seenAt(C(W, uint64(total)))
+	final := make([]*Term, len(keys))
+	for ki := range keys {
+		final[ki] = seenAt(C(W, uint64(total)), ki)
+	}
 	// no permutation explains the outcome
 	var unexplained []*Term
 	for _, perm := range permutations(n) {
@@ -275,30 +345,37 @@ func c19combo(c *Ctx, e *Engine, ops []regOp, paths [][]opPath, idx []int) {
 				valid = And(valid, Not(Lt(last[j], first[i], false)))
 			}
 		}
-		cur := initC
+		cur := append([]*Term{}, initC...)
 		match := True
 		for _, t := range perm {
 			p := paths[t][idx[t]]
+			ki := keyIdx(ops[t].Name)
 			switch ops[t].Op {
 			case "Registry":
 				if ops[t].Kind == "nonservice" {
 					match = And(match, B(p.ret == "false"))
 					break
 				}
-				absent := Eq(cur, C(CW, 0))
+				absent := Eq(cur[ki], C(CW, 0))
 				match = And(match, Eq(absent, B(p.ret == "true")))
-				cur = Ite(absent, C(CW, uint64(2+t)), cur)
+				cur[ki] = Ite(absent, C(CW, uint64(2+t)), cur[ki])
 			case "Get":
-				found := Not(Eq(cur, C(CW, 0)))
+				found := Not(Eq(cur[ki], C(CW, 0)))
 				match = And(match, Eq(found, B(p.ret == "found")))
 				if p.ret == "found" && getSeen[t] != nil {
-					match = And(match, Eq(getSeen[t], cur))
+					match = And(match, Eq(getSeen[t], cur[ki]))
 				}
-			case "Remove", "Clear":
-				cur = C(CW, 0)
+			case "Remove":
+				cur[ki] = C(CW, 0)
+			case "Clear":
+				for q := range cur {
+					cur[q] = C(CW, 0)
+				}
 			}
 		}
-		match = And(match, Eq(final, cur))
+		for ki := range keys {
+			match = And(match, Eq(final[ki], cur[ki]))
+		}
 		unexplained = append(unexplained, Not(And(valid, match)))
 	}
 	st := c.w.newState()
@@ -309,6 +386,13 @@ func c19combo(c *Ctx, e *Engine, ops []regOp, paths [][]opPath, idx []int) {
 	}
 	label := strings.Join(names, "||")
 	// feasibility of this path combination at all (otherwise the combination is vacuous, which is fine)
+	initDesc := func(val func(*Term) uint64) string {
+		var ps []string
+		for i, k := range keys {
+			ps = append(ps, fmt.Sprintf("%s:%v", k, val(inits[i]) == 1))
+		}
+		return strings.Join(ps, ",")
+	}
 	c.Prove(st, "linearizable:"+label, Not(And(unexplained...)), func(val func(*Term) uint64) *Violation {
 		// print the schedule
 		type row struct {
@@ -322,6 +406,8 @@ func c19combo(c *Ctx, e *Engine, ops []regOp, paths [][]opPath, idx []int) {
 				d += fmt.Sprintf("(%s)=%v", se.ev.Key, se.ev.Res)
 			} else if se.ev.Kind == "update" || se.ev.Kind == "delete" {
 				d += "(" + se.ev.Key + ")"
+			} else if se.ev.Kind == "lenzero" {
+				d = fmt.Sprintf("len(map)==0 is %v", se.ev.Res)
 			}
 			rows = append(rows, row{val(se.ts), fmt.Sprintf("T%d:%s %s", se.thread+1, ops[se.thread].Op, d)})
 		}
@@ -334,8 +420,8 @@ func c19combo(c *Ctx, e *Engine, ops []regOp, paths [][]opPath, idx []int) {
 		for t := range ops {
 			rets = append(rets, fmt.Sprintf("T%d:%s -> %s", t+1, ops[t].Op, paths[t][idx[t]].ret))
 		}
-		return &Violation{Detail: fmt.Sprintf("a schedule of %s is not explained by any sequential order: %s; results %s; initially present=%v", label, strings.Join(sched, " ; "), strings.Join(rets, ", "), val(init) == 1),
-			Model:  map[string]any{"schedule": sched, "results": rets, "initially_present": val(init) == 1},
+		return &Violation{Detail: fmt.Sprintf("a schedule of %s is not explained by any sequential order: %s; results %s; initially present=%v", label, strings.Join(sched, " ; "), strings.Join(rets, ", "), initDesc(val)),
+			Model:  map[string]any{"schedule": sched, "results": rets, "initially_present": initDesc(val)},
 			Replay: &ReplayReq{Steps: []map[string]any{step("op", "registry", "threads", 8, "n", 20000)}, Judge: Judge{Kind: "anomaly", Step: 0, Note: "race"}}}
 	})
 	if c.res.Sample == nil {
